@@ -98,9 +98,30 @@ def main():
         tc = os.path.join(vlib.VERIF, "tools", "translate_control.py")
         rc_c, out_c = vlib.sh([sys.executable, tc])
         okc, outc = (False, out_c) if rc_c != 0 else vlib.lake_build(["NdInterp.Gen.Control"])
+        if not okc and rc_c == 0:
+            # Lean does not accept a generated definition (a renamed parameter, a loop whose termination it cannot show, …): the
+            # translator's own limitation, never an alarm.  First drop only the definitions the errors point into (and their callers)
+            import re as _re
+            gen_path = os.path.join(vlib.LEAN, "NdInterp", "Gen", "Control.lean")
+            try:
+                src_lines = open(gen_path).read().splitlines()
+            except OSError:
+                src_lines = []
+            badnames = set()
+            for m_ in _re.finditer(r"Gen/Control\.lean:(\d+):", outc or ""):
+                ln = int(m_.group(1))
+                for k_ in range(min(ln, len(src_lines)) - 1, -1, -1):
+                    mm = _re.match(r"def (\w+?)(_available)? ", src_lines[k_])
+                    if mm:
+                        badnames.add(mm.group(1))
+                        break
+            if badnames:
+                vlib.sh([sys.executable, tc, "--unavailable", ",".join(sorted(badnames))])
+                okc, outc2 = vlib.lake_build(["NdInterp.Gen.Control"])
+                if okc:
+                    notes.append(f"control-flow translator: generated definitions rejected by Lean and marked unavailable: {sorted(badnames)}")
         if not okc:
-            # the translator produced something Lean does not accept (e.g. a loop whose termination it cannot show): its own failure,
-            # never an alarm — every function becomes `unavailable` and the property is tied by the correspondence runs alone
+            # every function becomes `unavailable` and the property is tied by the correspondence runs alone
             notes.append("control-flow translator output rejected; all functions marked unavailable: " + (outc or "")[-300:])
             vlib.sh([sys.executable, tc, "--all-unavailable"])
         try:
